@@ -190,6 +190,59 @@ CATALOGUE = [
 ]
 
 
+# semantics-preserving edits: every listed quick check must stay at exit 0 (no alarm on code where the property holds)
+NEUTRAL = [
+    ('C14,C04,C16', 'rename-local-in-get_next_task', 'bacpypes/task.py',
+     "            when, n, nxttask = self.tasks[0]\n            if when <= now:", "            due, n, nxttask = self.tasks[0]\n            when = due\n            if due <= now:"),
+    ('C04,C05,C11,C12', 'swap-independent-statements-client-indication', 'bacpypes/appservice.py',
+     "            self.sentAllSegments = True\n            self.retryCount = 0\n            self.set_state(AWAIT_CONFIRMATION, self.apduTimeout)", "            self.retryCount = 0\n            self.sentAllSegments = True\n            self.set_state(AWAIT_CONFIRMATION, self.apduTimeout)"),
+    ('C04,C05,C10,C11,C12,C15,C16', 'different-legal-smap-defaults', 'bacpypes/appservice.py',
+     "        self.segmentTimeout = 1500\n        self.maxSegmentsAccepted = 2\n        self.proposedWindowSize = 2", "        self.segmentTimeout = 2000\n        self.maxSegmentsAccepted = 4\n        self.proposedWindowSize = 3"),
+    ('C04,C05,C06,C13,C19', 'vlan-iterate-over-copy', 'bacpypes/vlan.py',
+     "            for node in self.nodes:\n                if (pdu.pduSource != node.address):", "            for node in list(self.nodes):\n                if (pdu.pduSource != node.address):"),
+    ('C06,C19', 'netservice-reorder-flag-assignments', 'bacpypes/netservice.py',
+     "            processLocally = (adapter is self.local_adapter) or (npdu.npduNetMessage is not None)\n            forwardMessage = False", "            forwardMessage = False\n            processLocally = (npdu.npduNetMessage is not None) or (adapter is self.local_adapter)"),
+    ('C16', 'cov-rename-local', 'bacpypes/service/cov.py',
+     "                time_remaining = int(cov.taskTime - current_time)\n\n                # make sure it is at least one second\n                if not time_remaining:\n                    time_remaining = 1\n\n            # build a request with the correct type",
+     "                seconds_left = int(cov.taskTime - current_time)\n                time_remaining = seconds_left if seconds_left else 1\n\n            # build a request with the correct type"),
+    ('C14,C10', 'deferred-list-to-deque', 'bacpypes/core.py',
+     "                for fn, args, kwargs in fnlist:\n                    if _debug: run_once._debug", "                from collections import deque as _dq\n                fnlist = _dq(fnlist)\n                for fn, args, kwargs in fnlist:\n                    if _debug: run_once._debug"),
+    ('C17', 'commandable-loop-as-while', 'bacpypes/local/object.py',
+     "            for i in range(1, 17):\n                priority_value = priority_array[i]", "            for i in (1, 2, 3, 4, 5, 6, 7, 8, 9, 10, 11, 12, 13, 14, 15, 16):\n                priority_value = priority_array[i]"),
+    ('C20', 'schedule-equivalent-last-day', 'bacpypes/local/schedule.py',
+     "        # last day of the month\n        last_day = calendar.monthrange(year + 1900, month)[1]\n        if day != last_day:", "        # last day of the month\n        last_day = max(calendar.monthcalendar(year + 1900, month)[-1])\n        if day != last_day:"),
+    ('C13', 'bbmd-age-loop-forward-copy', 'bacpypes/bvllservice.py',
+     "        for i in range(len(self.bbmdFDT)-1, -1, -1):\n            fdte = self.bbmdFDT[i]\n            fdte.fdRemain -= 1\n\n            # delete it if it expired\n            if fdte.fdRemain <= 0:\n                if _debug: BIPBBMD._debug(\"    - foreign device expired: %r\", fdte)\n                del self.bbmdFDT[i]",
+     "        for fdte in list(self.bbmdFDT):\n            fdte.fdRemain -= 1\n\n            # delete it if it expired\n            if fdte.fdRemain <= 0:\n                self.bbmdFDT.remove(fdte)"),
+    ('C15', 'readproperty-reorder-lookups', 'bacpypes/service/object.py',
+     "            # get the datatype\n            datatype = obj.get_datatype(apdu.propertyIdentifier)\n            if _debug: ReadWritePropertyServices._debug(\"    - datatype: %r\", datatype)\n\n            # get the value\n            value = obj.ReadProperty(apdu.propertyIdentifier, apdu.propertyArrayIndex)",
+     "            # get the value\n            value = obj.ReadProperty(apdu.propertyIdentifier, apdu.propertyArrayIndex)\n\n            # get the datatype\n            datatype = obj.get_datatype(apdu.propertyIdentifier)"),
+]
+
+
+def run_neutral(entry, budget):
+    props, name, rel, old, new = entry[:5]
+    count = entry[5] if len(entry) > 5 else 1
+    tmp = tempfile.mkdtemp(prefix='bacneu_', dir='/tmp')
+    res = []
+    try:
+        dst = os.path.join(tmp, 'py34')
+        shutil.copytree(REPO_SRC, dst, ignore=shutil.ignore_patterns('__pycache__'))
+        p = os.path.join(dst, rel)
+        s = open(p).read()
+        if s.count(old) != count:
+            return [('-', 'STALE(%d matches)' % s.count(old))]
+        open(p, 'w').write(s.replace(old, new))
+        for prop in props.split(','):
+            envv = dict(os.environ)
+            envv.update({'BACPYPES_SRC': dst, 'VERIF_BUDGET_S': str(budget), 'VERIF_EVIDENCE_DIR': os.path.join(tmp, 'evidence'), 'VERIF_REPLAY_DIR': os.path.join(tmp, 'replays')})
+            r = subprocess.run([os.path.join(VERIF, 'check'), prop, '--tier', 'quick'], capture_output=True, text=True, env=envv, timeout=1800)
+            res.append((prop, 'QUIET' if r.returncode == 0 else 'ALARM(exit %d): %s' % (r.returncode, ' | '.join(l for l in r.stdout.splitlines() if 'clause=' in l or 'HARNESS' in l)[:300])))
+        return res
+    finally:
+        shutil.rmtree(tmp, ignore_errors=True)
+
+
 def run_one(entry, budget, verbose=False):
     prop, name, rel, old, new = entry[:5]
     count = entry[5] if len(entry) > 5 else 1
@@ -225,7 +278,21 @@ def main():
     ap.add_argument('--name')
     ap.add_argument('--budget', type=int, default=20)
     ap.add_argument('-v', action='store_true')
+    ap.add_argument('--neutral', action='store_true', help='run the semantics-preserving edits instead: every check must stay quiet')
     a = ap.parse_args()
+    if a.neutral:
+        allq = True
+        out = []
+        for e in NEUTRAL:
+            if a.name and a.name not in e[1]:
+                continue
+            for prop, st in run_neutral(e, a.budget):
+                print('%-45s %-5s %s' % (e[1], prop, st), flush=True)
+                out.append((e[1], prop, st))
+                allq = allq and st == 'QUIET'
+        with open(os.path.join(VERIF, 'tools', 'neutral_last.json'), 'w') as f:
+            json.dump(out, f, indent=1)
+        return 0 if allq else 1
     res = []
     for e in CATALOGUE:
         if a.prop and e[0] != a.prop:
